@@ -14,9 +14,9 @@ import (
 	"os"
 	"sort"
 	"strconv"
+	"strings"
 	"syscall"
 	"testing"
-	"strings"
 	"time"
 	"unsafe"
 
